@@ -731,6 +731,12 @@ func (fc *FnCtx) next(x *ssa.Next) {
 // havocAll forgets the whole heap (unknown effect).
 func (fc *FnCtx) havocAll(why string) {
 	st := fc.cur
+	pre := st.clone()
+	defer func() {
+		if fc.curBlk >= 0 && fc.curBlk < len(fc.fn.Blocks) {
+			fc.keepReadOnlyLocals(pre, st, fc.fn.Blocks[fc.curBlk])
+		}
+	}()
 	for _, hs := range heapSorts {
 		st.heap[hs] = fc.freshConst("Hhavoc_"+sortTag(hs), heapSort(hs))
 	}
@@ -786,7 +792,10 @@ func (fc *FnCtx) ret(x *ssa.Return) {
 		}
 	}
 	if fr, ok := fc.funcFrame(fc.cur); ok {
-		fc.oblige("frame", "modifies", x.Pos(), fr)
+		labels, parts := frameParts(fr)
+		for i := range parts {
+			fc.oblige("frame", "modifies["+labels[i]+"]", x.Pos(), parts[i])
+		}
 	}
 	for _, pz := range fc.c.Preserves {
 		eqs, err := fc.preservesEqs(fc.entryEnv(), pz, fc.entry, fc.cur)
@@ -799,10 +808,63 @@ func (fc *FnCtx) ret(x *ssa.Return) {
 	fc.retIdx++
 }
 
-func (fc *FnCtx) runDefers()         {}
+// runDefers executes the deferred calls in reverse order. A defer whose block dominates
+// the RunDefers block has certainly been registered exactly once (defers inside loops are
+// outside the subset); a conditional defer is over-approximated by havocking the heap.
+func (fc *FnCtx) runDefers() {
+	for i := len(fc.deferred) - 1; i >= 0; i-- {
+		d := fc.deferred[i]
+		if fc.inLoop(d.Block()) {
+			fc.unsupported("defer inside a loop")
+			continue
+		}
+		cb := fc.fn.Blocks[fc.curBlk]
+		if !d.Block().Dominates(cb) {
+			if fc.blockReaches(d.Block(), cb) {
+				fc.havocAll("conditional defer")
+			}
+			continue
+		}
+		fc.call(d, &d.Call)
+	}
+}
+
+func (fc *FnCtx) inLoop(b *ssa.BasicBlock) bool {
+	for _, li := range fc.loops {
+		if li.body[b.Index] {
+			return true
+		}
+	}
+	return false
+}
+
+func (fc *FnCtx) blockReaches(a, b *ssa.BasicBlock) bool {
+	seen := map[*ssa.BasicBlock]bool{}
+	var walk func(x *ssa.BasicBlock) bool
+	walk = func(x *ssa.BasicBlock) bool {
+		if x == b {
+			return true
+		}
+		if seen[x] {
+			return false
+		}
+		seen[x] = true
+		for _, s := range x.Succs {
+			if walk(s) {
+				return true
+			}
+		}
+		return false
+	}
+	return walk(a)
+}
 func (fc *FnCtx) runDefersAtReturn() {}
 
 func (fc *FnCtx) goInstr(x *ssa.Go) {
+	if fc.c != nil && len(fc.c.ForkJoin) == 4 {
+		fc.forkJoinSpawn(x)
+		return
+	}
 	if fc.c != nil {
 		for _, n := range fc.c.Notes {
 			if strings.HasPrefix(n, "allow-go") {
@@ -815,4 +877,272 @@ func (fc *FnCtx) goInstr(x *ssa.Go) {
 		}
 	}
 	fc.unsupported("go statement")
+}
+
+// forkJoinShape checks the syntactic side conditions of the parallel-for rule on the SSA of
+// the spawner and the worker.
+func (fc *FnCtx) forkJoinShape(x *ssa.Go, worker *ssa.Function) (ok bool, why string, phi *ssa.Phi, initV, addArg ssa.Value) {
+	fail := func(s string) (bool, string, *ssa.Phi, ssa.Value, ssa.Value) {
+		return false, " -- " + s, nil, nil, nil
+	}
+	// exactly one go statement in the function
+	var li *LoopInfo
+	for _, b := range fc.fn.Blocks {
+		for _, ins := range b.Instrs {
+			if g, isGo := ins.(*ssa.Go); isGo && g != x {
+				return fail("more than one go statement")
+			}
+		}
+	}
+	for _, l := range fc.loops {
+		if l.body[x.Block().Index] {
+			if li != nil {
+				return fail("go statement inside nested loops")
+			}
+			li = l
+		}
+	}
+	if li == nil {
+		return fail("go statement not inside a loop")
+	}
+	// the argument is the loop counter: phi(init, phi+1)
+	p, isPhi := x.Common().Args[0].(*ssa.Phi)
+	if !isPhi || p.Block() != li.header || len(p.Edges) != 2 {
+		return fail("worker argument is not the loop counter")
+	}
+	for k, e := range p.Edges {
+		pred := li.header.Preds[k]
+		if li.body[pred.Index] {
+			add, isAdd := e.(*ssa.BinOp)
+			if !isAdd || add.Op != token.ADD || add.X != ssa.Value(p) {
+				return fail("loop counter is not incremented by one")
+			}
+			c, isC := add.Y.(*ssa.Const)
+			if !isC || c.Int64() != 1 {
+				return fail("loop counter is not incremented by one")
+			}
+			if !x.Block().Dominates(pred) {
+				return fail("an iteration can skip the go statement")
+			}
+		} else {
+			initV = e
+		}
+	}
+	if initV == nil {
+		return fail("no initial value for the loop counter")
+	}
+	// the only exit of the loop is the header test
+	for bi := range li.body {
+		b := fc.fn.Blocks[bi]
+		for _, s := range b.Succs {
+			if !li.body[s.Index] && b != li.header {
+				return fail("loop has an exit other than the header test")
+			}
+		}
+	}
+	// wg.Add before the loop, wg.Wait after it, on the same WaitGroup the worker signals
+	var wgAdd, wgWait *ssa.Call
+	for _, b := range fc.fn.Blocks {
+		for _, ins := range b.Instrs {
+			c, isCall := ins.(*ssa.Call)
+			if !isCall {
+				continue
+			}
+			switch calleeDisplayName(c.Common()) {
+			case "(*sync.WaitGroup).Add":
+				if wgAdd != nil {
+					return fail("more than one wg.Add")
+				}
+				wgAdd = c
+			case "(*sync.WaitGroup).Wait":
+				if wgWait != nil {
+					return fail("more than one wg.Wait")
+				}
+				wgWait = c
+			case "(*sync.WaitGroup).Done":
+				return fail("spawner calls wg.Done")
+			}
+		}
+	}
+	if wgAdd == nil || wgWait == nil {
+		return fail("missing wg.Add or wg.Wait")
+	}
+	if li.body[wgAdd.Block().Index] || !wgAdd.Block().Dominates(li.header) {
+		return fail("wg.Add does not precede the spawning loop")
+	}
+	if li.body[wgWait.Block().Index] || !li.header.Dominates(wgWait.Block()) {
+		return fail("wg.Wait does not follow the spawning loop")
+	}
+	// every return reachable from the loop passes through wg.Wait
+	for _, b := range fc.fn.Blocks {
+		if _, isRet := b.Instrs[len(b.Instrs)-1].(*ssa.Return); isRet && li.header.Dominates(b) && !wgWait.Block().Dominates(b) {
+			return fail("a return after the spawning loop bypasses wg.Wait")
+		}
+	}
+	wg := wgAdd.Common().Args[0]
+	if wgWait.Common().Args[0] != wg {
+		return fail("wg.Add and wg.Wait use different WaitGroups")
+	}
+	// the worker's first instruction defers Done on the captured WaitGroup, and it spawns nothing
+	mc := x.Common().Value.(*ssa.MakeClosure)
+	var fvIdx = -1
+	for i, b := range mc.Bindings {
+		if b == wg {
+			fvIdx = i
+		}
+	}
+	if fvIdx < 0 {
+		return fail("worker does not capture the WaitGroup")
+	}
+	doneOK := false
+	for _, ins := range worker.Blocks[0].Instrs {
+		if d, isDefer := ins.(*ssa.Defer); isDefer {
+			if calleeDisplayName(&d.Call) == "(*sync.WaitGroup).Done" && d.Call.Args[0] == ssa.Value(worker.FreeVars[fvIdx]) {
+				doneOK = true
+			}
+			break
+		}
+		if _, isCall := ins.(ssa.CallInstruction); isCall {
+			break
+		}
+	}
+	if !doneOK {
+		return fail("worker does not start with defer wg.Done()")
+	}
+	for _, b := range worker.Blocks {
+		for _, ins := range b.Instrs {
+			switch c := ins.(type) {
+			case *ssa.Go:
+				return fail("worker spawns goroutines")
+			case *ssa.Call:
+				if n := calleeDisplayName(c.Common()); strings.HasPrefix(n, "(*sync.WaitGroup).") {
+					return fail("worker calls " + n + " outside the deferred Done")
+				}
+			}
+		}
+	}
+	return true, "", p, initV, wgAdd.Common().Args[1]
+}
+
+// forkJoinSpawn: the parallel-for rule (DESIGN §2.7). `go worker(i)` inside the spawning
+// loop of a function whose contract says `forkjoin lo; hi; total; witness`:
+//   F1  lo <= i < hi
+//   F2  the worker's footprint [flo(i), fhi(i)) lies within [0, total)
+//   F3  footprints of two different workers are disjoint (= data-race freedom, given that a
+//       worker writes only inside its footprint and reads nothing another worker writes)
+//   F4  every work item x in [0,total) belongs to the footprint of worker witness(x)
+// and the worker itself is then treated as a call (sequentialisation, sound under F3).
+func (fc *FnCtx) forkJoinSpawn(x *ssa.Go) {
+	cc := x.Common()
+	mc, ok := cc.Value.(*ssa.MakeClosure)
+	if !ok || len(cc.Args) != 1 {
+		fc.unsupported("go statement outside the fork-join pattern")
+		return
+	}
+	worker := mc.Fn.(*ssa.Function)
+	wc := fc.eng.contractFor(worker)
+	if wc == nil || len(wc.Footprint) != 2 {
+		fc.unsupported("go statement: worker closure has no footprint contract")
+		return
+	}
+	pos := x.Pos()
+	shapeOK, why, phi, initV, addArg := fc.forkJoinShape(x, worker)
+	g := TTrue
+	if !shapeOK {
+		g = TFalse
+	}
+	so := fc.oblige("forkjoin", "fork-join shape: wg.Add(n); for i := lo; i < hi; i++ { go worker(i) /* defer wg.Done() */ }; wg.Wait()"+why, pos, g)
+	if !shapeOK {
+		so.preSolved, so.Status, so.Solver = true, "refuted", "static"
+		return
+	}
+	env := fc.newEnv(fc.cur)
+	env.atBlk = x.Block()
+	env.wholeBlk = true
+	env.upTo = x
+	evalInt := func(e *Env, text string) (Term, bool) {
+		sv, err := fc.specExpr(e, text)
+		if err != nil {
+			fc.unbound = append(fc.unbound, fmt.Sprintf("forkjoin %q: %v", text, err))
+			return Term{}, false
+		}
+		return fc.toIntTerm(e.coerce(sv, specIntType))
+	}
+	lo, ok1 := evalInt(env, fc.c.ForkJoin[0])
+	hi, ok2 := evalInt(env, fc.c.ForkJoin[1])
+	total, ok3 := evalInt(env, fc.c.ForkJoin[2])
+	if !ok1 || !ok2 || !ok3 {
+		return
+	}
+	arg := fc.toIndex(fc.val(cc.Args[0]).T, cc.Args[0].Type())
+	fc.oblige("forkjoin", "worker index within [lo,hi)", pos, And(Le(lo, arg), Lt(arg, hi)))
+	fc.oblige("forkjoin", "first worker index is lo", pos, Eq(fc.toIndex(fc.val(initV).T, initV.Type()), lo))
+	fc.oblige("forkjoin", "WaitGroup counter equals the number of workers", pos, Eq(fc.toIndex(fc.val(addArg).T, addArg.Type()), Sub(hi, lo)))
+	fc.fjPhi, fc.fjHi = phi, fc.c.ForkJoin[1]
+	// worker environment: parameter + captured variables
+	wenv := func(idx Term) *Env {
+		e := fc.newEnv(fc.cur)
+		e.callee = true
+		if f := worker; f.Parent() != nil && f.Parent().Pkg != nil {
+			e.pkg = f.Parent().Pkg.Pkg
+		}
+		e.binds[worker.Params[0].Name()] = binding{Leaf(fc.fromIndex(idx, worker.Params[0].Type())), worker.Params[0].Type()}
+		for i, fv := range worker.FreeVars {
+			pt, isPtr := fv.Type().Underlying().(*types.Pointer)
+			bp := fc.val(mc.Bindings[i])
+			if isPtr && bp.K == KPtr {
+				e.binds[fv.Name()] = binding{fc.load(fc.cur, pt.Elem(), bp.Obj(), bp.Off()), pt.Elem()}
+			}
+		}
+		return e
+	}
+	fp := func(idx Term) (Term, Term, bool) {
+		e := wenv(idx)
+		a, oka := evalInt(e, wc.Footprint[0])
+		b, okb := evalInt(e, wc.Footprint[1])
+		return a, b, oka && okb
+	}
+	a1, b1, ok := fp(arg)
+	if !ok {
+		return
+	}
+	fc.oblige("forkjoin", "worker footprint within [0,total)", pos, And(Le(IntLit(0), a1), Le(a1, b1), Le(b1, total)))
+	other := fc.freshConst("otherWorker", SInt)
+	a2, b2, ok := fp(other)
+	if ok {
+		o := fc.oblige("forkjoin", "footprints of two different workers are disjoint (no data race)", pos,
+			Implies(And(Le(lo, other), Lt(other, hi), Not(Eq(other, arg))), Or(Le(b1, a2), Le(b2, a1))))
+		_ = o
+	}
+	item := fc.freshConst("workItem", SInt)
+	wit := fc.newEnv(fc.cur)
+	wit.atBlk = x.Block()
+	wit.wholeBlk = true
+	wit.upTo = x
+	wit.binds["x"] = binding{Leaf(item), specIntType}
+	if w, okw := evalInt(wit, fc.c.ForkJoin[3]); okw {
+		aw, bw, ok := fp(w)
+		if ok {
+			fc.oblige("forkjoin", "every work item belongs to the footprint of a spawned worker (coverage)", pos,
+				Implies(And(Le(IntLit(0), item), Lt(item, total)), And(Le(lo, w), Lt(w, hi), Le(aw, item), Lt(item, bw))))
+		}
+	}
+	// sequentialisation: the worker runs as an ordinary call under its contract
+	var names []string
+	var typs []types.Type
+	args := []Value{fc.val(cc.Args[0])}
+	for _, p := range worker.Params {
+		names = append(names, p.Name())
+		typs = append(typs, p.Type())
+	}
+	for i, fv := range worker.FreeVars {
+		pt, isPtr := fv.Type().Underlying().(*types.Pointer)
+		bp := fc.val(mc.Bindings[i])
+		if isPtr && bp.K == KPtr {
+			names = append(names, fv.Name())
+			typs = append(typs, pt.Elem())
+			args = append(args, fc.load(fc.cur, pt.Elem(), bp.Obj(), bp.Off()))
+		}
+	}
+	fc.applyContract(wc, relName(worker), names, typs, args, worker.Signature.Results(), pos, worker)
 }
